@@ -41,6 +41,7 @@ func main() {
 	dump := flag.String("dump", "", "directory to dump SMT queries")
 	tlimit := flag.Int("time-limit", 0, "per-harness wall limit in seconds (0 = none)")
 	list := flag.Bool("list", false, "list harness functions and exit")
+	tags := flag.String("tags", "verif,purego,math_big_pure_go", "build tags used to load /repo and std for symbolic execution")
 	flag.Parse()
 
 	t0 := time.Now()
@@ -73,7 +74,7 @@ func main() {
 		Mode:       packages.LoadAllSyntax,
 		Dir:        *repo,
 		Overlay:    overlay,
-		BuildFlags: []string{"-tags=verif"},
+		BuildFlags: []string{"-tags=" + *tags},
 		Env: append(os.Environ(), "GOFLAGS=-mod=mod", "GOPROXY=off", "GOSUMDB=off", "GOTOOLCHAIN=local",
 			"PATH=/opt/veriftools/go1.26.8/bin:"+os.Getenv("PATH")),
 	}
